@@ -64,6 +64,9 @@ func (l lookupGSUB) isReverse() bool {
 
 func applyRecurseGSUB(c *otApplyContext, lookupIndex uint16) bool {
 	gsub := c.font.face.GSUB
+	if int(lookupIndex) >= len(gsub.Lookups) { // invalid font: no such lookup
+		return false
+	}
 	l := lookupGSUB(gsub.Lookups[lookupIndex])
 	return c.applyRecurseLookup(lookupIndex, l)
 }
@@ -156,13 +159,22 @@ func (c *otApplyContext) applyGSUB(table tables.GSUBLookup) bool {
 		}
 
 	case tables.MultipleSubs:
+		if index >= len(data.Sequences) { // the coverage index is not bounded by the coverage length for an invalid font
+			return false
+		}
 		c.applySubsSequence(data.Sequences[index].SubstituteGlyphIDs)
 
 	case tables.AlternateSubs:
+		if index >= len(data.AlternateSets) { // index is not sanitized in tables.Parse
+			return false
+		}
 		alternates := data.AlternateSets[index].AlternateGlyphIDs
 		return c.applySubsAlternate(alternates)
 
 	case tables.LigatureSubs:
+		if index >= len(data.LigatureSets) {
+			return false
+		}
 		ligatureSet := data.LigatureSets[index].Ligatures
 		return c.applySubsLigature(ligatureSet)
 
@@ -202,6 +214,9 @@ func (c *otApplyContext) applyGSUB(table tables.GSUBLookup) bool {
 			return false
 		}
 
+		if index >= len(data.SubstituteGlyphIDs) {
+			return false
+		}
 		c.buffer.unsafeToBreakFromOutbuffer(startIndex, endIndex)
 		c.setGlyphClass(GID(data.SubstituteGlyphIDs[index]))
 		c.buffer.cur(0).Glyph = GID(data.SubstituteGlyphIDs[index])
